@@ -1022,7 +1022,11 @@ pub const RULES: &[&str] = &[
     "R12-observer-needs-fallible-constructor",
     "R13-two-routes-match-the-same-request",
     "R14-path-param-field-not-in-template",
+    "R15-overlapping-domain-guards",
 ];
+
+/// The first 14 rules are the ones C08 lists; R15 belongs to C20 (overlapping domain guards are rejected).
+pub const C08_RULES: usize = 14;
 
 pub struct Planted {
     pub spec: AppSpec,
@@ -1489,6 +1493,57 @@ pub fn plant(base: &AppSpec, rule: usize, raw: u16) -> Option<Planted> {
             insert_after(&mut spec.bp, h, idx);
             nontrivial = crate::model::routes(&spec).iter().any(|r| r.handler == h && r.nest_depth >= 1);
             what = format!("a second handler x{idx} answers the same path as x{h} with an overlapping method guard");
+        }
+        14 => {
+            // every route moves below a domain guard; a second guarded blueprint's guard can match the same hosts
+            // (same shape with another parameter name, or a catch-all where the first has a parameter); the second
+            // blueprint holds a route, or - half of the time - nothing but a fallback
+            let mut root: Vec<Reg> = vec![];
+            let mut routed: Vec<Reg> = vec![];
+            for r in spec.bp.drain(..) {
+                match &r {
+                    Reg::Comp { idx } if matches!(spec.comps[*idx].kind, CompKind::Handler | CompKind::Fallback) => routed.push(r),
+                    Reg::Nest { .. } => routed.push(r),
+                    _ => root.push(r),
+                }
+            }
+            fn strip_domains(regs: &mut Vec<Reg>) {
+                for r in regs.iter_mut() {
+                    if let Reg::Nest { domain, bp, .. } = r {
+                        *domain = None;
+                        strip_domains(bp);
+                    }
+                }
+            }
+            strip_domains(&mut routed);
+            if routed.is_empty() {
+                return None;
+            }
+            let (g1, g2) = match raw % 3 {
+                0 => ("{sub}.ov.test", "{other}.ov.test"),
+                1 => ("{sub}.ov.test", "{*any}.ov.test"),
+                _ => ("{*rest}.api.ov.test", "{*more}.api.ov.test"),
+            };
+            let only_fallback = (raw / 3) % 2 == 0;
+            let extra = spec.comps.len();
+            if only_fallback {
+                spec.comps.push(CompSpec { kind: CompKind::Fallback, inputs: vec![], fallible: None, is_async: false, route: None, fw: vec![], gens: vec![] });
+            } else {
+                spec.comps.push(CompSpec {
+                    kind: CompKind::Handler,
+                    inputs: vec![],
+                    fallible: None,
+                    is_async: false,
+                    route: Some(RouteSpec { methods: vec!["GET".into()], path: "/ov".into(), path_param_fields: vec![], bulk: false }),
+                    fw: vec![],
+                    gens: vec![],
+                });
+            }
+            root.push(Reg::Nest { prefix: None, domain: Some(g1.to_string()), bp: routed });
+            root.push(Reg::Nest { prefix: None, domain: Some(g2.to_string()), bp: vec![Reg::Comp { idx: extra }] });
+            spec.bp = root;
+            nontrivial = only_fallback;
+            what = format!("all routes are guarded by `{g1}`; a second blueprint guarded by `{g2}` (which can match the same hosts) holds {}", if only_fallback { "nothing but a fallback" } else { "a route" });
         }
         _ if raw % 4 == 1 => {
             // the same rule for a middleware: it asks for typed path parameters with a field that none of
